@@ -63,7 +63,12 @@ def spec_wd(K, A, length, dt, data):
 def impl_wd(K, rows):
     """rows: (A, length, dt, data) -> per peak (median, widths, deciles) as Fractions"""
     p = make_peaks(K, [(0, A, length, dt, data) for A, length, dt, data in rows])
-    m, w, d = strax.compute_widths(p)
+    try:
+        m, w, d = strax.compute_widths(p)
+    except (ZeroDivisionError, ValueError, OverflowError, IndexError) as e:
+        return ["raised %s: %s" % (type(e).__name__, e)] * len(rows)
+    if not (np.all(np.isfinite(m)) and np.all(np.isfinite(w)) and np.all(np.isfinite(d))):
+        return ["non-finite result %s" % ([float(x) for x in m],)] * len(rows)
     return [(Fraction(float(m[k])), [Fraction(float(x)) for x in w[k]], [Fraction(float(x)) for x in d[k]])
             for k in range(len(rows))]
 
@@ -86,6 +91,8 @@ def close_wd(out, exp, bnd):
 
 
 def predicate_wd(K, A, length, dt, data, out):
+    if isinstance(out, str):
+        return out + " (every peak has finite widths by definition; area <= 0 gives zeros)"
     exp, bnd = flat(spec_wd(K, A, length, dt, data)), bound_wd(K, A, length, dt, data)
     names = ["median_time"] + ["width[%d]" % k for k in range(K)] + ["area_decile_from_midpoint[%d]" % k for k in range(K)]
     for nm, v, e, b in zip(names, flat(out), exp, bnd):
@@ -152,7 +159,11 @@ def unit_wd(ctx):
             if reason2:
                 reason = "second peak of the array: " + reason2
                 inp = {"K": K, "A": A, "length": length, "dt": 3, "data": data[:length][::-1]}
-        if not close_wd(flat(out), flat(mexp), bnd):
+        if isinstance(out, str):
+            u.report(inp, out, str([float(x) for x in flat(mexp)]), reason)
+            if u.bad > 5:
+                break
+        elif not close_wd(flat(out), flat(mexp), bnd):
             u.report(inp, str([float(x) for x in flat(out)]), str([float(x) for x in flat(mexp)]), reason)
             if u.bad > 5:
                 break
@@ -170,7 +181,7 @@ def unit_wd(ctx):
 def replay_wd(inp):
     out = impl_wd(inp["K"], [(inp["A"], inp["length"], inp["dt"], inp["data"])])[0]
     reason = predicate_wd(inp["K"], inp["A"], inp["length"], inp["dt"], inp["data"], out)
-    print("impl:", [float(x) for x in flat(out)], "spec:", reason or "holds")
+    print("impl:", out if isinstance(out, str) else [float(x) for x in flat(out)], "spec:", reason or "holds")
     return 1 if reason else 0
 
 
